@@ -102,8 +102,10 @@ func cmdC09(r *RNG, n int, e *Emitter, args []string) {
 				e.Case(fmt.Sprintf("c09-%d.s%d.%d", i, li, k), sb2.String(), m2)
 			}
 		}
-		// the closed solution must be the boolean region of the CLOSED inputs alone (C01's certificate)
-		line, _ := genLine(fmt.Sprintf("bool %d %d", int(ct), int(fr)), "4", []clip.Paths64{sc, c, closedSol}, append(clonePaths(sc), c...), nil)
+		// "open paths never appear in, or alter, the closed solution": the closed solution computed in the presence of
+		// the open paths describes the same region as the one computed from the closed inputs alone (whether THAT is
+		// the right region is C01's business)
+		line, _ := genLine("sameodd", "4", []clip.Paths64{closedSol, closedOnly}, append(clonePaths(sc), c...), nil)
 		e.Case(fmt.Sprintf("c09-%dc", i), line, meta)
 	}
 }
